@@ -18,7 +18,7 @@
 (*                  defines for the logged call   (=> conformance only)    *)
 (* The verdict predicates never consult Apply.                             *)
 (***************************************************************************)
-EXTENDS Scopes, Json, IOUtils, TLCExt
+EXTENDS PropsH, Json, IOUtils, TLCExt
 
 CONSTANTS Strict
 
@@ -32,6 +32,7 @@ LookupOf(js) == IF "lookup" \in DOMAIN js THEN js.lookup ELSE <<>>
 CallOf(c) ==
     CASE c.op = "remove_from"     -> [c EXCEPT !.xs = SeqSet(@)]
       [] c.op = "disconnect_from" -> [c EXCEPT !.pins = SeqSet(@)]
+      [] c.op = "hq" /\ c.root.t = "S" -> [c EXCEPT !.root.ids = SeqSet(@)]
       [] OTHER -> c
 
 Pre(r)  == StateOf(T[r.pre].state)
@@ -57,12 +58,22 @@ ActionClauses(pre, c, out, post, fullpre, fullpost) ==
        <<"C02_RepointKeeps", C02_RepointKeeps(pre, c, out, post)>>,
        <<"C10_RefusalExact", C10_RefusalExact(pre, c, out)>>,
        <<"C14_RefusedUnchanged", C14_RefusedUnchanged(fullpre, out, fullpost)>> >>
+QueryClauses(pre, c, ret, info) ==
+    << <<"C11_ExactlyOnce", C11_ExactlyOnce(pre, c, ret)>>,
+       <<"C11_ValidNamed", C11_ValidNamed(pre, c, info)>>,
+       <<"C11_Canonical", C11_Canonical(c, info)>>,
+       <<"C11_ValidityTracksEdits", C11_ValidityTracksEdits(pre, c, info)>>,
+       <<"C12_All", C12_All(pre, c, ret)>>,
+       <<"C12_Narrow", C12_Narrow(pre, c, ret)>>,
+       <<"C12_PinsOfWire", C12_PinsOfWire(pre, c, ret)>> >>
+RetOf(r)  == IF "ret" \in DOMAIN r THEN r.ret ELSE <<>>
+InfoOf(r) == IF "info" \in DOMAIN r THEN r.info ELSE <<>>
 
 Report(tag, k, cl) ==
     \A j \in DOMAIN cl : IF cl[j][2] THEN TRUE ELSE PrintT(<<tag, k, cl[j][1]>>)
 
 StrictClauses(pre, c, out, post) ==
-    LET res == Apply(pre, c) IN
+    LET res == ApplyX(pre, c) IN
     << <<"outcome", res.out = out>>, <<"state", res.s = post>> >>
 
 CheckRecord(k) ==
@@ -75,6 +86,7 @@ CheckRecord(k) ==
     ELSE LET pre == Pre(r)  post == Post(r)  c == CallOf(r.call) IN
          /\ (IF r.same THEN TRUE ELSE Report("FAIL", k, StateClauses(post, LookupOf(r.state))))
          /\ Report("FAIL", k, ActionClauses(pre, c, r.out, post, FullPre(r), FullPost(r)))
+         /\ (IF c.op \in {"hq", "hcheck"} THEN Report("FAIL", k, QueryClauses(pre, c, RetOf(r), InfoOf(r))) ELSE TRUE)
          /\ (IF HasMirror(r)
              THEN Report("FAIL", k, << <<"C19_MirrorExact", C19_MirrorExact(post, MirrorAfter(r))>>,
                                        <<"C19_BeforeEffect", C19_BeforeEffect(r.ann)>>,
